@@ -303,7 +303,16 @@ func store(a, i, v Term) string { return "(store " + a.S + " " + i.S + " " + v.S
 
 func (ex *Exec) loadPtr(ps *Sort, p Term) Term {
 	h := ex.heap(ex.st, ps.Heap)
-	return Term{sel(h, p), ps.Elem}
+	return ex.wf(Term{sel(h, p), ps.Elem})
+}
+
+// wf: a reference read from memory is an allocated one (memory safety of Go: closedness of the heap)
+func (ex *Exec) wf(t Term) Term {
+	if t.Sort.Kind == KRef && ex.safetyOn {
+		a := ex.st.ghost["alloc"]
+		ex.fact(And(Term{"(>= " + t.S + " 0)", SBool}, Term{"(<= " + t.S + " " + a.S + ")", SBool}))
+	}
+	return t
 }
 
 func (ex *Exec) storePtr(ps *Sort, p, v Term) {
@@ -564,7 +573,7 @@ func (ex *Exec) expr(e ast.Expr) Term {
 		if ex.U.SortOf(t).Kind == KAny {
 			return v
 		}
-		return ex.U.Unbox(t, v)
+		return ex.wf(ex.U.Unbox(t, v))
 	case *ast.FuncLit:
 		ex.note("closure value is opaque: " + ex.P.pos(x))
 		return ex.U.Fresh("closure", ex.U.SortOf(ex.info.TypeOf(e)))
@@ -712,7 +721,7 @@ func (ex *Exec) fieldPath(base Term, baseType types.Type, path []int, n ast.Node
 			return ex.opaqueVal(n.(ast.Expr), "field of opaque struct "+shortTypeName(ct)), nil
 		}
 		f := st.Field(i)
-		cur = ex.U.FieldGet(cur, cur.Sort.Fields[i])
+		cur = ex.wf(ex.U.FieldGet(cur, cur.Sort.Fields[i]))
 		ct = f.Type()
 	}
 	return cur, ct
@@ -757,7 +766,7 @@ func (ex *Exec) index(x *ast.IndexExpr) Term {
 			return ex.opaqueVal(x, "index of opaque slice")
 		}
 		ex.safe("index", And(Term{"(<= 0 " + i.S + ")", SBool}, Term{"(< " + i.S + " " + ex.U.SeqLen(base).S + ")", SBool}), x, exprString(x))
-		return ex.U.SeqAt(base, i)
+		return ex.wf(ex.U.SeqAt(base, i))
 	case *types.Map:
 		k := ex.expr(x.Index)
 		k = ex.coerce(k, ex.info.TypeOf(x.Index), ut.Key())
@@ -765,7 +774,7 @@ func (ex *Exec) index(x *ast.IndexExpr) Term {
 			return ex.opaqueVal(x, "index of opaque map")
 		}
 		v, _ := ex.mapGet(base.Sort, base, k)
-		return v
+		return ex.wf(v)
 	case *types.Basic:
 		i := ex.expr(x.Index)
 		ex.safe("index", And(Term{"(<= 0 " + i.S + ")", SBool}, Term{"(< " + i.S + " (str.len " + base.S + "))", SBool}), x, exprString(x))
